@@ -79,6 +79,14 @@ def diff_to_ref(obs, ref, fields=("value", "vars", "filename", "extension")):
     return M.outcome_diff(ref, obs, fields)
 
 
+def baseline_agrees(q, memo={}):
+    """Does a stand-alone evaluation (NoCache, nothing before it) agree with the reference at all?  If not, the disagreement is
+    C01's business and says nothing about isolation."""
+    if q not in memo:
+        memo[q] = not diff_to_ref(M.run(q), M.Sem(q))
+    return memo[q]
+
+
 def check_sequence(col, kind, factory, q1, q2, reuse_context):
     """S1: q2 after q1 must be what q2 is on its own"""
     import liquer.context as LCTX
@@ -89,7 +97,7 @@ def check_sequence(col, kind, factory, q1, q2, reuse_context):
         o2 = M.run(q2, cache=c, context=ctx)
         col.evaluations += 2
         ref = M.Sem(q2)
-        d = diff_to_ref(o2, ref)
+        d = diff_to_ref(o2, ref) if baseline_agrees(q2) else []
         if d:
             col.add(CONTRACT, "Context.evaluate / %s" % kind, query=q2, history=[["eval", q1]], same_context_object=reuse_context, cache=kind,
                     problem="an evaluation observed the variables/values of the previous one",
@@ -117,7 +125,9 @@ def check_mutating(col, kind, factory, q):
             o = M.run(q, cache=c)
             col.evaluations += 1
             ref = M.Sem(q)
-            d = diff_to_ref(o, ref)
+            # (what an in-place change made through context.vars - command cmut - means for the result itself is not specified: only
+            #  its isolation from caches, held states and defaults is checked for such queries)
+            d = diff_to_ref(o, ref) if ("cmut" not in q and baseline_agrees(q)) else []
             if d:
                 col.add(CONTRACT, "Context.evaluate / %s" % kind, query=q, cache=kind, history=[["eval", p] for p in pres[:-1]] + [["eval", q]] * rnd_,
                         problem="in-place mutation by a command leaked into a later evaluation", differences=[dict(field=a, expected=b, observed=x) for a, b, x in d])
@@ -127,7 +137,7 @@ def check_mutating(col, kind, factory, q):
                         key=p, before=M._simple(snap[0]), after=M._simple(st.data), vars_before=M._simple(snap[1].get("vars")), vars_after=M._simple(st.metadata.get("vars")))
         for k in pres + M.link_subqueries(q):
             g = M.quiet(c.get, k)
-            if g is None:
+            if g is None or "cmut" in k:
                 continue
             ref = M.Sem(k)
             if not ref.ok or not M.same_value(g.data, ref.value) or not M.same_value(dict(g.metadata.get("vars") or {}), ref.vars):
